@@ -220,6 +220,7 @@ def tridonic_case(seed, part, i, res):
     sim = simlib.Sim("tridonic", picker, dev_inst_map=None if late_map else dmap, register_callbacks=False,
                      answer2=(lambda w_, v_, i_, dt_: None) if twin else None)
     dup_log = []
+    dup_sub = i % 3 == 0          # in a third of the histories (the others keep their subscriber counts small)
     # ... and every third starts with traffic the gateway reports while the driver is still shaking hands with it
     early = i % 3 == 1
     twin_log = []
@@ -300,8 +301,9 @@ def tridonic_case(seed, part, i, res):
         # handle; dropping one leaves the other
         def recorder(drv, c, rsp, e):
             dup_log.append((w.now, c, rsp, e))
-        dup_handles = [d.bus_traffic.register(recorder), d.bus_traffic.register(recorder)]
-        w.at(segs[0], lambda: dup_handles[0].unregister())
+        if dup_sub:
+            dup_handles = [d.bus_traffic.register(recorder), d.bus_traffic.register(recorder)]
+            w.at(segs[0], lambda: dup_handles[0].unregister())
 
         def join(k):
             def cb(drv, c, rsp, e, k=k):
@@ -464,14 +466,15 @@ def tridonic_case(seed, part, i, res):
                 res.violation("C20/tridonic/subscriber-delivery", f"subscriber {k} (joined at {lo}, left at {hi}) received {len(got_k)} reports, "
                               f"{len(want_k)} were made in that interval", {**wit, "subscriber": k})
                 return
-        res.hit("same_callable_subscribed_twice")
         t_drop = segs[0]
         want_dup = []
         for z in base_log:
-            if z[0] < 0.9:
+            if z[0] < 0.9 or not dup_sub:
                 continue                     # reports made during the handshake, before the recorder existed
             want_dup += norm([z]) * (2 if z[0] < t_drop else 1)
         got_dup = norm([z for z in dup_log if z[0] >= 0.9])
+        if dup_sub:
+            res.hit("same_callable_subscribed_twice")
         if got_dup != want_dup:
             res.violation("C20/tridonic/subscriber-delivery/same-callable-twice", f"a callable subscribed twice (first subscription dropped at "
                           f"{t_drop}) received {len(got_dup)} calls, {len(want_dup)} expected (two per report before, one after)", wit)
